@@ -2,7 +2,9 @@
 //
 // A case is a schedule program: key set versions, and phases of callers (token + context plan) with the endpoint's script for
 // that phase and the order of the events {caller i arrives, caller i's context is cancelled, the deadline of caller i's
-// context passes, the endpoint answers}. The
+// context passes, the endpoint answers, the held download goes on}. A phase may hold its finished download: the download
+// goroutine stays parked right after it handed its result to the waiters, and the next phase (rotated endpoint script, new
+// callers) is applied while it is parked. The
 // program is executed deterministically against rp.NewRemoteKeySet (see world_test.go / sched_test.go) and judged by a
 // model written from the statement (model_test.go).
 package c13
